@@ -60,6 +60,7 @@ class Run(typing.NamedTuple):
     servertype: str
     tls: bool
     detach: bool = False            # detach = yes: the launcher forks and exits, the daemon child goes on
+    err: str = "EPERM:1"            # how an injected call fails: errno and which calls ("1": the first; "1+": every one)
     ident: str = "plain"            # "plain": started 0/0/0, switching to nobody/nogroup; "target-root": setuid/setgid name
                                     # root while the process starts with gid 4242; "real-is-target": started with the real
                                     # ids already those of the target (a set-uid launcher), effective and saved ids 0
@@ -71,11 +72,12 @@ class Run(typing.NamedTuple):
 
     def sig(self) -> tuple:
         return (self.combo, self.fault or "-", self.servertype, "tls" if self.tls else "plain") + \
-            (("detached",) if self.detach else ()) + ((self.ident,) if self.ident != "plain" else ())
+            (("detached",) if self.detach else ()) + ((self.ident,) if self.ident != "plain" else ()) + \
+            ((self.err,) if self.err != "EPERM:1" else ())
 
     def as_dict(self) -> dict:
         return {"combo": self.combo, "fault": self.fault, "servertype": self.servertype,
-                "tls": self.tls, "detach": self.detach, "ident": self.ident}
+                "tls": self.tls, "detach": self.detach, "ident": self.ident, "err": self.err}
 
 
 def expected_calls(r: Run) -> typing.List[str]:
@@ -94,6 +96,34 @@ def expected_calls(r: Run) -> typing.List[str]:
     return out
 
 
+UNPRIVILEGED_LAUNCHER = """
+import ctypes, os
+libc = ctypes.CDLL(None, use_errno=True)
+def _ok(rc, what):
+    if rc != 0:
+        raise OSError(ctypes.get_errno(), what)
+_ok(libc.prctl(8, 1, 0, 0, 0), "PR_SET_KEEPCAPS")
+os.setgroups([])
+os.setregid(%(gid)d, %(gid)d)
+os.setreuid(%(uid)d, %(uid)d)
+class _H(ctypes.Structure):
+    _fields_ = [("version", ctypes.c_uint32), ("pid", ctypes.c_int)]
+class _D(ctypes.Structure):
+    _fields_ = [("effective", ctypes.c_uint32), ("permitted", ctypes.c_uint32), ("inheritable", ctypes.c_uint32)]
+_mask = (1 << 1) | (1 << 2)          # CAP_DAC_OVERRIDE, CAP_DAC_READ_SEARCH
+_h = _H(0x20080522, 0)
+_d = (_D * 2)(_D(_mask, _mask, _mask), _D(0, 0, 0))
+_ok(libc.capset(ctypes.byref(_h), ctypes.byref(_d)), "capset")
+for _cap in (1, 2):
+    _ok(libc.prctl(47, 2, _cap, 0, 0), "PR_CAP_AMBIENT_RAISE")
+"""
+
+
+def natural(fault: str) -> bool:
+    """Faults that need no injection: the configuration or the starting account brings them about."""
+    return fault.startswith("unknown-") or fault == "started-unprivileged"
+
+
 def plan(tier: str) -> typing.List[Run]:
     variants = [("ThreadingTCPServer", True)]
     if tier == "thorough":
@@ -108,6 +138,10 @@ def plan(tier: str) -> typing.List[Run]:
                     runs.append(base)
                     for call in expected_calls(base):
                         runs.append(base._replace(fault=call))
+                        if st == "ThreadingTCPServer" and tls and (tier == "thorough" or (u and g)):
+                            # the call keeps failing, with an error a caller might think worth retrying or ignoring
+                            for err in ("EAGAIN:1+", "ENOMEM:1+", "EINTR:1+", "EINVAL:1"):
+                                runs.append(base._replace(fault=call, err=err))
                     if c:
                         # applies only to a tree that does chdir after chroot (see OPTIONAL)
                         runs.append(base._replace(fault="chdir"))
@@ -116,6 +150,9 @@ def plan(tier: str) -> typing.List[Run]:
             runs.append(Run(c, False, True, "unknown-group", st, tls))
             runs.append(Run(c, True, True, "unknown-user", st, tls))
             runs.append(Run(c, True, True, "unknown-group", st, tls))
+        # started without any privilege, with privileged steps configured: each of them fails, start-up aborts
+        for c, u, g in ((True, False, False), (False, True, False), (False, False, True), (True, True, True), (False, True, True)):
+            runs.append(Run(c, u, g, "started-unprivileged", st, tls))
         # a value of usechroot that is no boolean must abort start-up, not silently mean 'no chroot'
         runs.append(Run(True, False, False, "unknown-usechroot-value", st, tls))
         runs.append(Run(True, True, True, "unknown-usechroot-value", st, tls))
@@ -135,7 +172,7 @@ def plan(tier: str) -> typing.List[Run]:
     for r in list(runs):
         if r.ident != "plain":
             continue
-        if r.fault is None or (r.fault and not r.fault.startswith("unknown-") and r.fault != "chdir"
+        if r.fault is None or (r.fault and not natural(r.fault) and r.fault != "chdir"
                                and (tier == "thorough" or (r.chroot and r.uid and r.gid))):
             runs.append(r._replace(detach=True))
     return runs
@@ -448,8 +485,15 @@ def execute(env: Env, r: Run, tag: str, token: str, kind: str = "unrelated") -> 
 
         launcher = "import os\nos.setregid(%d, 0)\nos.setreuid(%d, 0)" % (tg, tu)
     inject = None
-    if r.fault and not r.fault.startswith("unknown-"):
-        inject = "%s:error=EPERM:when=1" % r.fault
+    if r.fault == "started-unprivileged":
+        # the daemon is started by an ordinary account (a service unit with User=, a high port): every privileged step
+        # that is configured fails by itself
+        # (dropped by a launcher inside the traced process: strace itself has to write its log as root)
+        # Only the two file-access capabilities survive as ambient ones: in this sandbox the interpreter lives in a
+        # directory other accounts cannot enter.  chroot, setgroups and set*id are refused by the kernel.
+        launcher = UNPRIVILEGED_LAUNCHER % {"uid": env.uid, "gid": env.gid}
+    if r.fault and not natural(r.fault):
+        inject = "%s:error=%s:when=%s" % ((r.fault,) + tuple(r.err.split(":")))
     # where the daemon is started from: an unrelated directory, a sibling whose name merely starts
     # with the root's name, a directory inside the root, the root itself -- all must end inside the root
     start_cwd = env.start_cwd
@@ -472,7 +516,7 @@ def execute(env: Env, r: Run, tag: str, token: str, kind: str = "unrelated") -> 
                                 strace_expr=TRACE_EXPR, inject=inject, cwd=start_cwd,
                                 workdir=wd, name="srv",
                                 popen_kwargs=pk)
-    if r.ident == "real-is-target":
+    if r.ident == "real-is-target" or r.fault == "started-unprivileged":
         # real ids = the target's, effective and saved ids stay 0 (what a set-uid-root launcher leaves)
         sp.launcher_code = launcher
     try:
@@ -561,6 +605,10 @@ def execute(env: Env, r: Run, tag: str, token: str, kind: str = "unrelated") -> 
         if r.ident == "real-is-target":
             # the launcher's own two calls (setregid(t, 0), setreuid(t, 0)) come before the server exists
             mine = [i for i, e in enumerate(o.events[:4]) if e.kind in ("gid", "uid")][:2]
+            o.events = [e for i, e in enumerate(o.events) if i not in mine]
+        if r.fault == "started-unprivileged":
+            # likewise the launcher's setgroups / setregid / setreuid
+            mine = [i for i, e in enumerate(o.events[:5]) if e.kind in ("groups", "gid", "uid")][:3]
             o.events = [e for i, e in enumerate(o.events) if i not in mine]
         for s in trace:
             if s.pid == lineage[-1] and s.name == "+++exit" and o.exited is None:
@@ -679,7 +727,7 @@ def judge(env: Env, r: Run, o: Obs, token: str) -> typing.Tuple[
     # ---- fault runs -----------------------------------------------------------------------
     injected = [e for e in o.events if e.injected]
     served = o.ready or bool(waits) or o.answered_after_fault is not None
-    if r.fault.startswith("unknown-"):
+    if natural(r.fault):
         key = "C19/serves-after-" + r.fault
     else:
         key = "C19/serves-after-failed-" + r.fault
@@ -907,9 +955,9 @@ def main() -> int:
         for w in chk.replay_case.get("witnesses", []):
             d = w.get("run") if isinstance(w, dict) else None
             if d:
-                wanted.append((d["combo"], d["fault"], d["servertype"], d["tls"], d.get("detach", False), d.get("ident", "plain")))
+                wanted.append((d["combo"], d["fault"], d["servertype"], d["tls"], d.get("detach", False), d.get("ident", "plain"), d.get("err", "EPERM:1")))
         if wanted:
-            runs = [r for r in runs if (r.combo, r.fault, r.servertype, r.tls, r.detach, r.ident) in wanted] or runs
+            runs = [r for r in runs if (r.combo, r.fault, r.servertype, r.tls, r.detach, r.ident, r.err) in wanted] or runs
     if mode != "strace":
         runs = [r for r in runs if not r.detach and r.ident == "plain"]
     chk.rng.shuffle(runs)
